@@ -297,14 +297,14 @@ pub fn run(tier: Tier) -> i32 {
         if s == 0 {
             byte_tables(&mut t, &mut r);
         }
-        for i in 0..tier.n(9000, 90_000) {
+        for i in 0..tier.n(9000, 400_000) {
             let mut r = Rng::keyed(seed, "C10", "random", s, i);
             let q = gen_query_string(&mut r);
             check_query(&mut t, &mut r, &q, "random");
         }
         t
     });
-    let e2e = ctx.par(16, |s| end_to_end(seed, s, tier.n(4000, 30_000)));
+    let e2e = ctx.par(16, |s| end_to_end(seed, s, tier.n(4000, 150_000)));
     tally.merge(e2e);
     // fresh processes (different HashMap seeds): the same corpus must canonicalise / validate identically
     let procs = tier.n(8, 32);
